@@ -436,16 +436,14 @@ def check_r08e(repo, rep):
         if bad and site in R08E_EXCEPTIONS:
             # only returns guarded by `isinstance(value, datetime.datetime)`
             def guarded(r):
-                i = model.enclosing(r.ast, ast.If)
-                while i is not None:
-                    t = i.test
-                    if isinstance(t, ast.Call) and isinstance(
-                            t.func, ast.Name) and t.func.id == 'isinstance' \
-                            and len(t.args) == 2 and repo.resolve(
-                                m.module, t.args[1]) == 'datetime.datetime':
-                        return True
-                    i = model.enclosing(i, ast.If)
-                return False
+                # the value is known to be a datetime where it is returned
+                # (if/else, early-exit and negated spellings alike)
+                return norm.literal_polarity(
+                    r.ast, m.node, lambda e: isinstance(e, ast.Call) and
+                    isinstance(e.func, ast.Name) and
+                    e.func.id == 'isinstance' and len(e.args) == 2 and
+                    repo.resolve(m.module, e.args[1]) ==
+                    'datetime.datetime') is True
             bad = [b for b in bad if not guarded(b)]
             if not bad:
                 rep.ob('R08e', site, True, 'reviewed exception: ' +
@@ -457,6 +455,34 @@ def check_r08e(repo, rep):
                    [model.norm(b.ast) for b in bad]),
                loc=m.module.loc(bad[0].ast) if bad else m.module.loc(m.node))
     rep.floor('smart-type converters examined', n, 10)
+
+
+def _checked_repetition(repo, fi, params):
+    """(has multiplications, [(mult node, dominated by a quota estimate that
+    mentions both operands)])"""
+    g = cfgmod.CFG(fi.node)
+    mults = [x for x in model.walk_shallow(fi.node)
+             if isinstance(x, ast.BinOp) and isinstance(x.op, ast.Mult)
+             and len(model.names_loaded(x) & set(params)) >= 2 and
+             not any(isinstance(q, ast.Call) and any(
+                 y is x for y in ast.walk(q)) and (repo.resolve(
+                     fi.module, q.func, model.scope_locals(fi)) or ''
+             ).endswith('limit_memory_usage')
+                 for q in model.calls_in(fi.node, shallow=True))]
+    out = []
+    for mnode in mults:
+        ops = model.names_loaded(mnode) & set(params)
+        cn = g.node_of(mnode)
+        quota = []
+        for node in g.nodes:
+            for c in cfgmod.node_calls(node):
+                d = repo.resolve(fi.module, c.func, model.scope_locals(fi))
+                if d == UT + '.limit_memory_usage' and \
+                        ops <= model.names_loaded(c):
+                    quota.append(node)
+        out.append((mnode, cn is not None and any(
+            q is not cn and g.dominates(q, cn) for q in quota)))
+    return out
 
 
 def check_r08f(repo, rep, uni):
@@ -489,6 +515,12 @@ def check_r08f(repo, rep, uni):
                     and any(o.name == '#operator_*'
                             for o in uni.payload_ov[t.key]):
                 delegated.append(t)
+            elif isinstance(t, model.FuncInfo) and \
+                    t.key not in uni.payload_ov:
+                # a private helper that does the checked repetition
+                res = _checked_repetition(repo, t, t.params())
+                if res and all(okm for m2, okm in res):
+                    delegated.append(t)
         n += 1
         site = fi.key
         if not mults and delegated:
@@ -554,44 +586,66 @@ def check_r08g(repo, rep):
            'yaql.limitIterators to every declared collection parameter',
            loc=yt.loc(conv.node))
     lim = ut.func('limit_iterable')
-    nested = [f for q, f in ut.functions.items()
-              if f.parent_func is lim]
-    gen_ok = False
-    for f in nested:
+    subject = lim.params()[0]
+
+    def too_large(r, f):
+        return r.exc is not None and (repo.resolve(
+            ut, r.exc.func if isinstance(r.exc, ast.Call) else r.exc,
+            model.scope_locals(f)) or '').endswith(
+            'CollectionTooLargeException')
+    # the counting wrappers limit_iterable returns (nested or module-level
+    # generator functions)
+    wrappers = []
+    for r in model.walk_shallow(lim.node):
+        if isinstance(r, ast.Return) and isinstance(
+                r.value, ast.Call) and isinstance(r.value.func, ast.Name):
+            f = ut.functions.get(lim.qualname + '.' + r.value.func.id) or \
+                ut.functions.get(r.value.func.id)
+            if f is not None and consume.is_generator(f.node):
+                wrappers.append(f)
+    gen_ok = bool(wrappers)
+    for f in wrappers:
+        g = cfgmod.CFG(f.node)
+        fine = False
         for loop in [n for n in model.walk_shallow(f.node)
                      if isinstance(n, ast.For)]:
-            raises = [n for s in loop.body for n in model.walk_shallow(s)
-                      if isinstance(n, ast.Raise)]
-            yields = [n for s in loop.body for n in model.walk_shallow(s)
+            raises = [n for s2 in loop.body for n in model.walk_shallow(s2)
+                      if isinstance(n, ast.Raise) and too_large(n, f)]
+            yields = [n for s2 in loop.body for n in model.walk_shallow(s2)
                       if isinstance(n, (ast.Yield, ast.YieldFrom))]
-            good = [r for r in raises if r.exc is not None and (
-                repo.resolve(ut, r.exc.func if isinstance(r.exc, ast.Call)
-                             else r.exc, model.scope_locals(f)) or ''
-            ).endswith('CollectionTooLargeException')]
-            if good and yields and good[0].lineno < yields[0].lineno:
-                gen_ok = True
+            for y in yields:
+                yn = g.node_of(y)
+                # the test that guards the raise is evaluated before the
+                # element is handed out
+                for r in raises:
+                    i = model.enclosing(r, ast.If)
+                    tn = g.node_of(i.test) if i is not None else None
+                    if tn is not None and yn is not None and \
+                            g.dominates(tn, yn) and tn is not yn:
+                        fine = True
+        gen_ok = gen_ok and fine
     rep.ob('R08g', lim.key + '/iterator-branch', gen_ok,
            'limit_iterable\'s counting generator must raise '
            'CollectionTooLargeException from inside its loop, before '
            'yielding the element over the limit', loc=ut.loc(lim.node))
-    returns_gen = any(
-        isinstance(r, ast.Return) and isinstance(r.value, ast.Call) and
-        isinstance(r.value.func, ast.Name) and
-        any(r.value.func.id == f.name for f in nested)
-        for r in model.walk_shallow(lim.node))
-    rep.ob('R08g', lim.key + '/returns-the-wrapper', returns_gen,
+    rep.ob('R08g', lim.key + '/returns-the-wrapper', bool(wrappers),
            'limit_iterable must return the counting wrapper for iterators',
            loc=ut.loc(lim.node))
-    sized_ok = False
-    for st in model.walk_shallow(lim.node):
-        if isinstance(st, ast.If) and 'isinstance' in model.norm(st.test):
-            raises = [n for s in st.body for n in model.walk_shallow(s)
-                      if isinstance(n, ast.Raise)]
-            rets = [n for s in st.body for n in model.walk_shallow(s)
-                    if isinstance(n, ast.Return)]
-            if raises and rets and raises[0].lineno < rets[0].lineno and \
-                    'len' in model.norm(st):
-                sized_ok = True
+    # a sized collection is handed back only after its length was tested
+    def mentions_len(e):
+        return any(isinstance(x, ast.Call) and isinstance(
+            x.func, ast.Name) and x.func.id == 'len' and x.args and
+            isinstance(x.args[0], ast.Name) and x.args[0].id == subject
+            for x in ast.walk(e))
+    bare = [r for r in model.walk_shallow(lim.node)
+            if isinstance(r, ast.Return) and isinstance(
+                r.value, ast.Name) and r.value.id == subject]
+    refusals = [r for r in model.walk_shallow(lim.node)
+                if isinstance(r, ast.Raise) and too_large(r, lim) and any(
+                    mentions_len(e) for e, p in norm.guards(r, lim.node))]
+    sized_ok = bool(bare) and bool(refusals) and all(
+        any(mentions_len(e) for e, p in norm.guards(r, lim.node))
+        for r in bare)
     rep.ob('R08g', lim.key + '/sized-branch', sized_ok,
            'limit_iterable must refuse an oversized sized collection '
            'before returning it', loc=ut.loc(lim.node))
